@@ -3,7 +3,7 @@
   (hints strict|lenient <source>)            -> (ok (scan <table> (<col>*) (<factor>*))*) | (error <Err>)
   (needs <source>)                           -> (ok (<col>*)*)        spec: columns each scan must offer
   (lazy <source>)                            -> (ok (<table> <col>)*)  columns lazy._Columns extracts
-  (scoped <source>)                          -> (ok <innerOnly> <wellScoped>)
+  (scoped <source>)                          -> (ok <innerOnly> <wellScoped> <outerSafe> <shaped>)
   (exec ignore|rows|cols|both <source> <db>) -> (ok (<val>*)*)        rows of the statement over a back-end (simpleSem)
        db  ::= ((<table> (<col>*) ((<val>*)*))*)      val ::= null | <int> | true | false
   a line may be wrapped in (let ((x e)*) body), see ForML.Model.Dsl
@@ -84,7 +84,8 @@ def stepC14 (line : Sexp) : Sexp :=
       | none => .atom "bad-op"
     | .list [.atom "scoped", s] =>
       match Source.ofSexp s with
-      | some src => .list [.atom "ok", Sexp.ofBool (innerOnly src), Sexp.ofBool (wellScoped src)]
+      | some src => .list [.atom "ok", Sexp.ofBool (innerOnly src), Sexp.ofBool (wellScoped src),
+          Sexp.ofBool (outerSafe true [] src), Sexp.ofBool (shaped src)]
       | none => .atom "bad-op"
     | .list [.atom "exec", b, s, .list db] =>
       match backend? b, Source.ofSexp s, db.mapM tableData? with
